@@ -1,0 +1,127 @@
+"""Verification hooks (off unless SKEPTICOIN_VERIF=1 *and* SKEPTICOIN_VERIF_TRACE names a file).
+
+When enabled, the functions below wrap the two linearisation points of the networking layer that cannot be observed from
+outside when the node runs on real threads and sockets:
+  * ConnectedRemotePeer.handle_message_received  (one event per protocol message handled, with the node's state afterwards)
+  * ChainManager.step                            (one event per periodic step: idle / filtered / sent + the chosen peer)
+Events are ordered by a per-process sequence number taken *at the start* of the handler under one lock (never by wall
+clock): a message is handled after the handler that sent it has started, so this order is a valid linearisation of the
+per-node-sequential handlers.  One JSON object per line.  With the guard off nothing is wrapped and nothing is written.
+"""
+import json
+import os
+import threading
+
+TRACE_FILE = os.environ.get("SKEPTICOIN_VERIF_TRACE")
+ENABLED = os.environ.get("SKEPTICOIN_VERIF") == "1" and bool(TRACE_FILE)
+
+_lock = threading.Lock()
+_seq = [0]
+_file = [None]
+
+
+def begin():
+    with _lock:
+        _seq[0] += 1
+        return _seq[0]
+
+
+def end(seq, event, **fields):
+    rec = dict(seq=seq, ev=event)
+    rec.update(fields)
+    line = json.dumps(rec)
+    with _lock:
+        if _file[0] is None:
+            _file[0] = open(TRACE_FILE, "a")
+        _file[0].write(line + "\n")
+        _file[0].flush()
+
+
+def _hex(b):
+    return b.hex() if isinstance(b, (bytes, bytearray)) else str(b)
+
+
+def _peer_key(p):
+    return [p.host, p.port if isinstance(p.port, int) else -1, p.direction]
+
+
+def node_state(local_peer, now):
+    cm = local_peer.chain_manager
+    cs = cm.coinstate
+    peers = {}
+    for key, p in list(local_peer.network_manager.connected_peers.items()):
+        peers["%s:%s:%s" % (key[0], key[1], key[2])] = {
+            "waiting": bool(p.waiting_for_inventory),
+            "backoff": not (now > p.last_empty_inventory_response_at + 60),
+            "inv": [[_hex(i.hash) for i in ms.message.items] for ms in p.inventory_messages],
+            "hello": bool(p.hello_received and p.hello_sent),
+        }
+    return {
+        "node": local_peer.port,
+        "has": [_hex(h) for h in cs.block_by_hash.keys()],
+        "head": _hex(cs.current_chain_hash),
+        "pool": [_hex(t.hash()) for t in cm.transaction_pool],
+        "fetching": ["%s:%s:%s" % (p.host, p.port, p.direction) for (t, p) in cm.actively_fetching_blocks_from_peers if now < t],
+        "peers": peers,
+    }
+
+
+def _msg_summary(header, message):
+    n = type(message).__name__
+    d = {"type": n, "id": header.id, "irt": header.in_response_to}
+    if n == "HelloMessage":
+        d["my_port"] = message.my_port
+        d["nonce"] = message.nonce
+    elif n == "GetBlocksMessage":
+        d["loc"] = [_hex(h) for h in message.potential_start_hashes]
+    elif n == "InventoryMessage":
+        d["items"] = [_hex(i.hash) for i in message.items]
+    elif n == "GetDataMessage":
+        d["hash"] = _hex(message.hash)
+    elif n == "DataMessage":
+        d["data_type"] = type(message.data).__name__
+        try:
+            d["hash"] = _hex(message.data.hash())
+        except Exception:
+            d["hash"] = ""
+    return d
+
+
+def wrap_handle_message_received(fn):
+    from time import time
+
+    def handle_message_received(self, header, message):
+        seq = begin()
+        raised = None
+        try:
+            return fn(self, header, message)
+        except BaseException as e:      # logged on the error path too, then re-raised unchanged
+            raised = type(e).__name__
+            raise
+        finally:
+            try:
+                end(seq, "msg", peer=_peer_key(self), msg=_msg_summary(header, message), raised=raised,
+                    post=node_state(self.local_peer, int(time())))
+            except Exception:
+                pass
+    handle_message_received.__wrapped__ = fn
+    return handle_message_received
+
+
+def wrap_chain_manager_step(fn):
+    def step(self, current_time):
+        seq = begin()
+        before = list(self.actively_fetching_blocks_from_peers)
+        try:
+            return fn(self, current_time)
+        finally:
+            try:
+                after = list(self.actively_fetching_blocks_from_peers)
+                new = [p for (t, p) in after if (t, p) not in before]
+                stage = "sent" if new else ("filtered" if after != before else "idle")
+                end(seq, "step", now=current_time, stage=stage, chosen=_peer_key(new[0]) if new else None,
+                    post=node_state(self.local_peer, current_time))
+            except Exception:
+                pass
+    step.__wrapped__ = fn
+    return step
